@@ -599,11 +599,17 @@ class SBuf(object):
         return self.store[self.off + self._index(i)]
 
     def _slice(self, s):
-        def c(v):
-            if isinstance(v, (SInt, SBool)):
+        n = self.n
+        def c(v, clamp=True):
+            if isinstance(v, SBool):
+                return engine().concretize(v)
+            if isinstance(v, SInt):
+                if clamp:
+                    # bounds beyond +-len behave like +-len: fork only over the values that matter
+                    v = Min(Max(v, -n), n)
                 return engine().concretize(v)
             return v
-        return slice(c(s.start), c(s.stop), c(s.step)).indices(self.n)
+        return slice(c(s.start), c(s.stop), c(s.step, False)).indices(n)
 
     def __setitem__(self, i, v):
         if self.kind == 'bytes':
